@@ -116,6 +116,40 @@ def check_rm_iterations(prog, res):
                           detail="%d Rabin-Miller iterations give error 4^-%d > 2^-%d (B_PER_IMPOSSIBLE = %d)" % (it, it, bpi, bpi))
 
 
+# comparing primitives: callee -> indices of the two compared buffers
+COMPARATORS = {"wwCmp": (0, 1), "wwCmp2": (0, 2), "wwEq": (0, 1), "memEq": (0, 1), "memCmp": (0, 1), "memCmpRev": (0, 1),
+               "strEq": (0, 1), "strCmp": (0, 1), "qrCmp": (0, 1), "memcmp": (0, 1), "wwEq_fast": (0, 1), "wwCmp_fast": (0, 1),
+               "memEq_fast": (0, 1), "memCmp_fast": (0, 1)}
+
+
+def check_self_comparison(prog, res):
+    """R12.4: a comparison decides something only if its operands can differ: both operands of a comparing primitive are
+    different objects (canonical expressions after substituting single-assignment locals).  The Hasse test of
+    ec2SeemsValidGroup compared t3 with t3."""
+    from . import vp
+    n = 0
+    for f in prog.all_funcs():
+        if f.body is None:
+            continue
+        canon = None
+        for c in ir.calls(f.body):
+            idx = COMPARATORS.get(c.get("callee"))
+            if idx is None or max(idx) >= len(c["a"]):
+                continue
+            if canon is None:
+                canon = vp.Canon(f)
+            a, b = canon(c["a"][idx[0]]), canon(c["a"][idx[1]])
+            n += 1
+            if a == b:
+                res.violation("R12.4-comparison-operands-distinct", function=f.name, file=f.relfile, line=c["l"],
+                              construct="%s compares `%s` with itself" % (c["callee"], a[:40]),
+                              detail="both operands of %s are the same object `%s`: the outcome does not depend on the "
+                                     "value the test was meant to examine" % (c["callee"], a[:60]))
+    res.proved("R12.4-comparison-operands-distinct", function="(all of src/)", file="src", line=0,
+               construct="%d calls of comparing primitives" % n, detail="no call compares an object with itself")
+    res.floor("comparison call sites", n, 300)
+
+
 def run(tier, seed=0):
     res = Result("C12", "other", tier)
     prog = ir.Program("w64")
@@ -123,6 +157,7 @@ def run(tier, seed=0):
     n = mustcall.check_table(prog, res, "R12.1-validator-conjunction-complete", table)
     check_digits(prog, res)
     check_rm_iterations(prog, res)
+    check_self_comparison(prog, res)
     res.floor("validator obligations", n, 60)
     res.coverage["explanation"] = (
         "For each of %d validators the multiset of sub-checks (callee, literal arguments, polarity) accepted on the "
